@@ -33,6 +33,30 @@ def run_block(ev: ConstEval, stmts: List[ast.stmt], env: Dict[str, Any],
             out = run_block(ev, st.body if t else st.orelse, env, ignore_calls)
             if out.kind != "fallthrough":
                 return out
+        elif isinstance(st, ast.For) and not st.orelse:
+            seq = ev.ev(st.iter, env)
+            if not isinstance(seq, (tuple, list)) or isinstance(seq, (Sym, CallVal)):
+                raise AnalysisError(f"mini-interpreter: loop over a non-constant sequence `{src(st.iter)}` (line {st.lineno})")
+            broke = False
+            for item in seq:
+                if isinstance(st.target, ast.Name):
+                    env[st.target.id] = item
+                elif isinstance(st.target, ast.Tuple) and isinstance(item, (tuple, list)) and len(item) == len(st.target.elts):
+                    for t_, v_ in zip(st.target.elts, item):
+                        env[ap(t_)] = v_
+                else:
+                    raise AnalysisError(f"mini-interpreter: unsupported loop target `{src(st.target)}`")
+                out = run_block(ev, st.body, env, ignore_calls)
+                if out.kind == "break":
+                    broke = True
+                    break
+                if out.kind in ("return", "raise"):
+                    return out
+            del broke
+        elif isinstance(st, ast.Break):
+            return Outcome("break", None, st)
+        elif isinstance(st, ast.Continue):
+            return Outcome("continue", None, st)
         elif isinstance(st, ast.Assign) and len(st.targets) == 1:
             tgt = st.targets[0]
             if isinstance(tgt, (ast.Name, ast.Attribute)):
